@@ -137,7 +137,8 @@ class Ctx:
         self.replay = replay
         self.t0 = time.time()
         self.scratch = tempfile.mkdtemp(prefix="verif_%s_" % prop_id)
-        shutil.rmtree(os.path.join(VERIF, "replay", prop_id), ignore_errors=True)   # replay files of THIS run only
+        if not replay:
+            shutil.rmtree(os.path.join(VERIF, "replay", prop_id), ignore_errors=True)   # replay files of THIS run only
         self.states = 0
         self.transitions = 0
         self.traces = 0
@@ -414,7 +415,8 @@ class Ctx:
             "violations": len(self.violations),
         }
         os.makedirs(os.path.join(VERIF, "evidence"), exist_ok=True)
-        with open(os.path.join(VERIF, "evidence", "%s.json" % self.prop_id), "w") as f:
+        evname = "%s.json" % self.prop_id if not self.replay else "%s.replay.json" % self.prop_id
+        with open(os.path.join(VERIF, "evidence", evname), "w") as f:
             json.dump(ev, f, indent=1, default=str)
         self.cleanup()
         print("%s %s: states=%d transitions=%d traces=%d nontrivial=%d violations=%d known=%d drift=%d wall=%.0fs"
